@@ -332,6 +332,19 @@ CHECKS = {
         design_ref="DESIGN.md 5 C40",
         note=NOTE_COMMON + " center_of_mass returns the first moment; it is compared with the weighted mean for patterns of unit total intensity only.",
     ),
+    "C31": dict(
+        text=("TLC checks NoiseImpl (each block seeds a fresh RandomState from the transform's seed, so the member at position p of any "
+              "block draws stream <<seed, p>>): for single-block evaluation the member -> stream map is injective and equals the "
+              "eager one; over all chunkings TLC returns the counterexample behind the known finding C31-blocks-share-one-random-"
+              "stream (recorded in the evidence).  Every (ensemble size <= 4, chunking) TLC enumerates is run on Images, "
+              "DiffractionPatterns, RealSpaceLineProfiles and PolarMeasurements with fixed / absent seeds, samples 1 and 3, two "
+              "doses; NoiseTrace.tla decides: non-negative whole counts, mean and variance z-scores within 6 sigma of dose x "
+              "signal, reproducibility, lazy = eager, independence of chunking, and that no two members with equal expectation are "
+              "bit-identical."),
+        technique="TLA+ stream-assignment model (TLC) + TLC-enumerated chunkings on the real noise transform + TLC trace validation",
+        design_ref="DESIGN.md 5 C31",
+        note=NOTE_COMMON + " Statistical independence is operationalised as 'no bit-identical members' plus first/second moments; the chunk-dependence clauses for a shared block seed are a recorded known finding.",
+    ),
 }
 
 NOT_APPLICABLE = {
